@@ -905,7 +905,7 @@ func runC11(c C11Case) vrt.Verdict {
 
 const c11Rule = "config struct types from the shape grammar restricted to leaves the env source casts from text (bool, ints, uints, floats, complex, string, time.Duration, pointers to scalars, slices of scalars, maps with string keys incl. sets and map[string][]string, named collection types) plus inert leaves it cannot fill (time.Time, text-unmarshalable structs, arrays, uintptr, **int, net.IP), nested / pointer / embedded structs to depth 3, skipped fields in half the cases; " +
 	"`dials` tags at any level rendered from word lists in snake, kebab, lowerCamel, UpperCamel, the four spellings DecodeGoTags documents (initialisms in camel tags come from the golint list and are fully capitalised except as the leading word of a lowerCamel tag; every other word has >= 3 letters; digit runs only as whole non-leading snake/kebab components), `dialsenv` tags on leaves, optional prefix (fixed spellings, or in 1/4 of the cases the leading 1..3 words of some leaf's own derived name or dialsenv tag, e.g. Prefix DB with leaf DB.Host: the documented variable DB_DB_HOST is then usually set and the un-prefixed look-alike DB_HOST is present as noise with another acceptable text); " +
-	"a subset of variables set (10/50/90 % density) with boundary-biased values and quoting-heavy strings rendered by the harness (strconv incl. 0x / 0o / legacy-octal leading-zero integer spellings, Duration.String, the documented comma/colon collection syntax with Go quoting; in string-valued maps and map[string][]string an empty value is often written as a value-less entry `k` or `k:`, also right after valued entries, which means the empty text for every map kind on the unmodified parser); noise variables derived from real names (wrong case, missing/extra prefix, dropped or doubled separators, path-joined name of a dialsenv leaf, names of skipped fields, prefixes/suffixes, sibling joins); in about half of the cases one or two further Value calls are made on the SAME *env.Source with another environment (each variable of the previous call disappears / changes / stays, others appear, noise is thinned, sometimes a bad text), every result is compared with the model of its own call and the earlier results are re-compared at the end; in 1/4 of the cases one unparsable or just-out-of-range text (incl. float32/complex64 parts just beyond float32, and for scalar-valued maps a value-less entry after a valued one: a:10,b: is an error, not b:10). " +
+	"a subset of variables set (10/50/90 % density) with boundary-biased values and quoting-heavy strings rendered by the harness (strconv incl. 0x / 0o / legacy-octal leading-zero integer spellings, Duration.String, the documented comma/colon collection syntax with Go quoting; in string-valued maps and map[string][]string an empty value is often written as a value-less entry `k` or `k:`, also right after valued entries, which means the empty text for every map kind on the unmodified parser); noise variables derived from real names (wrong case, missing/extra prefix, dropped or doubled separators, path-joined name of a dialsenv leaf, names of skipped fields, prefixes/suffixes, sibling joins); in about half of the cases one or two further Value calls are made on the SAME *env.Source with another environment (each variable of the previous call disappears / changes / stays, others appear, noise is thinned, sometimes a bad text), every result is compared with the model of its own call and the earlier results are re-compared at the end; in 1/4 of the cases one unparsable or just-out-of-range text (incl. float32/complex64 parts just beyond float32, for scalar-valued maps a value-less entry after a valued one: a:10,b: is an error, not b:10; for slice and set leaves of every element kind two items not separated by a comma -- adjacent quoted literals, text right after a closing quote, tab- or newline-separated items -- which is an error, not a list without the later item). " +
 	"Oracle: expected variable name known by construction (dialsenv verbatim, else UPPER_SNAKE of tag/name words along the path, untagged embedded structs contribute nothing, prefix + '_' in front of every name); result has the requested type; a leaf is non-nil iff its variable is present and then equals the generated value; defaults stacked with the result equal defaults with exactly those leaves replaced; a bad text gives an error and an invalid Value. " +
 	"non-trivial = (>=2 levels of nesting or a dials tag on an inner level) and >=2 variables set; distinct = distinct case JSON"
 
